@@ -166,8 +166,11 @@ class TableRecorder:
             wrapped[id(func)] = w
             self._orig[name] = func
             xl.FUNCTIONS[name] = w
-        for table in (ast_nodes.INFIX_OP_TO_FUNC, ast_nodes.PREFIX_OP_TO_FUNC,
-                      ast_nodes.POSTFIX_OP_TO_FUNC):
+        # (the operator tables are internal: when a refactoring has moved
+        # them, the registry wrappers above still observe named calls)
+        tables = [getattr(ast_nodes, n, None) for n in (
+            'INFIX_OP_TO_FUNC', 'PREFIX_OP_TO_FUNC', 'POSTFIX_OP_TO_FUNC')]
+        for table in [t for t in tables if isinstance(t, dict)]:
             for sym, func in list(table.items()):
                 w = wrapped.get(id(func))
                 if w is None:
@@ -288,6 +291,10 @@ class DerefTracer:
     def install(self):
         from xlcalculator import evaluator, ast_nodes
         tr = self
+        ctx_cls = getattr(evaluator, 'EvaluatorContext', None)
+        if ctx_cls is None or not hasattr(ctx_cls, 'eval_cell') or \
+                not hasattr(getattr(ast_nodes, 'RangeNode', None), 'eval'):
+            return self        # internals moved: the tracer is diagnostic only
         orig = evaluator.EvaluatorContext.eval_cell
 
         def eval_cell(ctx_, addr):
